@@ -123,9 +123,13 @@ Definition p_lease (lease : N) (d : dump) : string :=
                              "C18:orphan-session") (d_sessions d).
 
 (* ---- C20: lock-owner identity and lock accounting ------------------------ *)
-(* An injective encoding of (client, owner, tag) for the lock table predicates. *)
+(* An injective encoding of (client, owner, tag) for the lock table
+   predicates (Cantor pairing; injectivity: owner_code_injective in
+   PropertiesC20.v). *)
+Definition tri (n : N) : N := n * (n + 1) / 2.
+Definition cpair (a b : N) : N := tri (a + b) + b.
 Definition owner_code (cid key : N) (tag : Z) : N :=
-  (cid * 1024 + key) * 1024 + Z.to_N (tag + 1).
+  cpair (cpair cid key) (Z.to_N (tag + 1)).
 Definition to_lslock (l : d_lock) : LS.lock :=
   LS.mkLock (dk_start l) (dk_end l) (owner_code (dk_client l) (dk_key l) (dk_tag l)) (dk_type l).
 
